@@ -51,13 +51,19 @@ namespace cnl::_impl {
                   }};
 
         if constexpr (InExponent < 0) {
-            for (int in_exponent = InExponent;
-                 in_exponent != 0 || (Precise && !(output.significand % OutRadix));) {
+            for (int in_exponent = InExponent; in_exponent != 0;) {
 #if defined(JOHNMCFARLANE_CNL_VERIF)
                 if (!std::is_constant_evaluated() && _impl::verif::tick_hook) {
                     _impl::verif::tick_hook();
                 }
 #endif
+                if constexpr (InRadix == OutRadix) {
+                    // same radix: no rescaling needed, only the exponent moves
+                    if (output.significand % OutRadix) {
+                        output.exponent = in_exponent;
+                        break;
+                    }
+                }
                 if (output.significand % InRadix) {
                     if (oob(output.significand)) {
                         if (Precise) {
@@ -72,6 +78,12 @@ namespace cnl::_impl {
 
                 output.significand /= InRadix;
                 in_exponent++;
+            }
+            if constexpr (Precise) {
+                while (!(output.significand % OutRadix)) {
+                    output.significand /= OutRadix;
+                    output.exponent++;
+                }
             }
         } else {
             for (int in_exponent = InExponent;
